@@ -139,7 +139,7 @@ fn scaled_sweep(ctx: &Ctx, cfgs: &[Prepared]) {
                 if let Some(msg) = check_rr(p, &input, s, &rr) {
                     let cfg = p.cfg.clone();
                     let (inp, sc) = (input.clone(), s.clone());
-                    ctx.violation(format!("{label}: {msg}"), case_json(&cfg, &input, s), &|| {
+                    ctx.violation(msg, case_json(&cfg, &input, s), &|| {
                         let p2 = Prepared::new(cfg.clone()).unwrap();
                         check(&p2, &inp, &sc)
                     });
